@@ -3,6 +3,8 @@ import Ts.Lemmas.C05Hd
 import Ts.Lemmas.C05HRun
 import Ts.Props.C05
 import Ts.Props.C06
+import Ts.Lemmas.C05He
+import Ts.Props.C02Trace
 /-!
 # C05 over whole histories — routing follows the latest valid PAT and PMTs
 
@@ -28,6 +30,12 @@ theorem over whole histories of PAT / PMT versions, elementary-stream packets an
   strength is FALSE of the code; the gap is exactly a PAT version in between.
   `dropped_program_streams_survive` — second pinned quirk.
 * non-vacuity: the generator's `F7control` / `F7` probes.
+* Additions after review B (second half of the file): known finding F10 (`shared_es_pid_unrouted`,
+  `shared_es_pid_counterexample`); the positive clause under collision-freedom of the tables IN FORCE
+  only (`routed_by_current_pmt`, `routed_by_latest_pmt'`, `handled_by_latest_pmt'`); the dropped clause
+  with TAGS (`DroppedClausePmt'`, false: F7); callbacks of the next packet
+  (`next_packet_callbacks_tagged`, `latest_pmt_stream_callbacks_tagged`); elementary-stream packets
+  interleaved with the packets of one table (`RealisesI`, `routing_refines_interleaved`).
 -/
 namespace Ts.Props.C05History
 open Ts Ts.Tables Ts.App Ts.Demux Ts.Spec Ts.Spec.TableSpec Ts.Spec.Routing Ts.Spec.RoutingHistory
@@ -519,5 +527,606 @@ example : routeOf (run initRoute ctlHist) 0x101 = some (.stream 0x100 0x1b 0x101
     0x100 1 body1 0x101 (.stream 0x100 0x1b 0x101 0x101 [] []) ctl_cf
     (by intro ev hm v b e; rw [List.mem_singleton] at hm; rw [hm] at e; cases e)
     (by decide +kernel)).2.1
+
+open Ts.Lemmas.C05He
+
+/-! ## Additions after review B
+
+* `shared_es_pid_unrouted`, `shared_es_pid_counterexample`, `shared_refined` — known finding F10.
+* `CollisionFreeNow` (tables in force only) replaces the global `CollisionFree` in the positive
+  clause: `routed_by_current_pmt`, `routed_by_latest_pmt'`, `handled_by_latest_pmt'`.
+* `DroppedClausePmt'` — the dropped clause as a statement about handler TAGS; false (F7), with its
+  `_partial` version.
+* `next_packet_callbacks_tagged`, `latest_pmt_stream_callbacks_tagged` — the conclusion in terms of
+  callbacks.
+* instantiations of `removal_partial`, `handled_by_latest_pmt`, `dropped_by_next_pat`.
+* `routing_refines_interleaved` — `routing_refines` for realisations with elementary-stream packets
+  between the packets of one table (`RealisesI`).
+-/
+
+/-! ### known finding F10: a shared elementary PID is dropped by ONE program's newer PMT -/
+
+/-- **Known finding F10 (spec level).**  History `sharedHist`: PAT {1 → 0x100, 2 → 0x110};
+PMT(0x100) v0 {0x101, 0x102}; PMT(0x110) v0 {0x101, 0x102}; PMT(0x100) v1 {0x101}.  It is
+well-formed; it is NOT `CollisionFree` (nor collision-free NOW: two PMTs in force share PIDs, which
+ISO/IEC 13818-1 allows); the PMT in force on program 2's PID 0x110 is `body0`, which lists 0x102, and
+0x110 is announced by the PAT in force; yet 0x102 is un-routed: program 1's newer PMT removed the
+handler program 2's PMT had installed.  This violates the first sentence of C05; `routing_refines`
+needs only `WF`, so it is the model's (and the code's: `shared_es_pid_counterexample`) behaviour. -/
+theorem shared_es_pid_unrouted :
+    WF initRoute sharedHist ∧ ¬ CollisionFree sharedHist ∧ ¬ CollisionFreeNowAll sharedHist ∧
+    0x102 ∈ (streamsOf body0).map StreamInfo.pid ∧
+    (0x110, body0) ∈ (currentOf sharedHist).pmt ∧ 0x110 ∈ progPids (currentOf sharedHist).pat ∧
+    routeOf (run initRoute sharedHist) 0x102 = none := by
+  refine ⟨shared_wf, shared_not_cf, by decide +kernel, by decide +kernel, by decide +kernel,
+    by decide +kernel, ?_⟩
+  unfold routeOf; rw [shared_slots.1]; rfl
+
+/-- **Known finding F10 (model level, by kernel evaluation of the whole model on the exact probe
+bytes `F10` / `F10c` of `/tmp/pr/f10.txt`, one `push`).**
+* after the four tables slot 0x102 is EMPTY although the PMT filter of program 2 (slot 0x110) has
+  0x102 registered and the handler it requested (`stream 0x110 0x0f 0x102`, tag 6) was built;
+* `F10`: the packet on 0x102 makes the application get `ByPid(0x102)` (tag 8, the LAST request) and
+  is recorded by that recorder at byte offset 752; no elementary-stream callback at all;
+* `F10c` (control, without PMT(0x100) v1): the packet is consumed by the PES filter with tag 6; the
+  elementary-stream callbacks are `start_stream`, `begin_packet` with tag 6; no `ByPid(0x102)`.
+Identical to the output of the Rust harness on these bytes. -/
+theorem shared_es_pid_counterexample :
+    (∃ t c, runApp {} [pat2V0 ++ pmtV0 ++ pmt2V0 ++ pmtV1] = .ok (t, c) ∧ t.get 0x102 = none ∧
+      (∃ s, t.get 0x110 = some (.pmt 0x110 2 s [0x101, 0x102])) ∧
+      Ev.construct (.stream 0x110 0x0f 0x102 0x101 [] []) 6 ∈ c.trace) ∧
+    (∃ t c, runApp {} [f10Bytes] = .ok (t, c) ∧ t.get 0x102 = some (.recorder 8) ∧
+      (∃ s, t.get 0x110 = some (.pmt 0x110 2 s [0x101, 0x102])) ∧
+      constructs c = [(.byPid 0, 0), (.pmt 0x100 1, 1), (.pmt 0x110 2, 2),
+        (.stream 0x100 0x1b 0x101 0x101 [] [], 3), (.stream 0x100 0x0f 0x102 0x101 [] [], 4),
+        (.stream 0x110 0x1b 0x101 0x101 [] [], 5), (.stream 0x110 0x0f 0x102 0x101 [] [], 6),
+        (.stream 0x100 0x1b 0x101 0x101 [] [], 7), (.byPid 0x102, 8)] ∧
+      pkts c = [(8, 752)] ∧ esTags c = []) ∧
+    (∃ t c, runApp {} [f10cBytes] = .ok (t, c) ∧ (∃ f, t.get 0x102 = some (.pes 6 f)) ∧
+      (∀ tag, Ev.construct (.byPid 0x102) tag ∉ c.trace) ∧ esTags c = [(6, 0), (6, 1)]) := by
+  refine ⟨?_, ?_, ?_⟩
+  · obtain ⟨t, c, hr, hc, -, -, -, h102, h110⟩ := observe_some _ _ f10_tables
+    refine ⟨t, c, hr, slot_empty _ h102, slot_pmt _ _ _ _ h110, ?_⟩
+    rw [← mem_constructs, hc]; decide
+  · obtain ⟨t, c, hr, hc, hp, -, -, h102, h110⟩ := observe_some _ _ f10_run
+    obtain ⟨t', c', hr', he⟩ := esTagsOf_some _ _ f10_es
+    rw [hr] at hr'
+    simp only [R.ok.injEq, Prod.mk.injEq] at hr'
+    obtain ⟨-, rfl⟩ := hr'
+    exact ⟨t, c, hr, slot_recorder _ _ h102, slot_pmt _ _ _ _ h110, hc, hp, he⟩
+  · obtain ⟨t, c, hr, hc, -, -, -, h102, -⟩ := observe_some _ _ f10c_run
+    obtain ⟨t', c', hr', he⟩ := esTagsOf_some _ _ f10c_es
+    rw [hr] at hr'
+    simp only [R.ok.injEq, Prod.mk.injEq] at hr'
+    obtain ⟨-, rfl⟩ := hr'
+    refine ⟨t, c, hr, slot_pes _ _ h102, ?_, he⟩
+    intro tag hm
+    rw [← mem_constructs, hc] at hm
+    simp [constructsShared] at hm
+
+/-- the F10 probe satisfies the hypotheses of `routing_refines` (5 real packets cut into the 5-event
+history `sharedHistP` = `sharedHist` followed by the packet on 0x102) … -/
+example : Demux.frame f10Bytes 0 = .ok f10Pks ∧ WF initRoute sharedHistP ∧
+    Realises initRoute sharedHistP f10Pks := ⟨f10_frame, sharedP_wf, f10_realises⟩
+
+/-- … and `routing_refines` yields the same F10 behaviour as kernel evaluation of the whole model -/
+theorem shared_refined :
+    ∃ t c, runApp {} [f10Bytes] = .ok (t, c) ∧ t.get 0x102 = some (.recorder 8) ∧
+      Ev.construct (.byPid 0x102) 8 ∈ c.trace ∧
+      (∃ s, t.get 0x110 = some (.pmt 0x110 2 s [0x101, 0x102])) := by
+  obtain ⟨t, c, -, h2, hslots, htags, -, -, -⟩ :=
+    routing_refines {} rfl sharedHistP f10Pks sharedP_wf f10_realises
+  have s102 := shared_slots.2.2.2.2
+  have s110 : (run initRoute sharedHistP).slots 0x110 = some (.pmt 0x110 2, 2) := by decide +kernel
+  have m110 : ((run initRoute sharedHistP).pmt 0x110).streams = [⟨0x1b, 0x101, []⟩, ⟨0x0f, 0x102, []⟩] := by
+    decide +kernel
+  refine ⟨t, c, by rw [runApp_one {} f10Bytes f10Pks f10_frame]; exact h2, ?_, ?_, ?_⟩
+  · have := hslots 0x102; rw [s102] at this; exact this
+  · exact (htags 0x102 _ 8 s102).2.1
+  · have := hslots 0x110; rw [s110] at this
+    obtain ⟨s, h1, -⟩ := this
+    rw [m110] at h1
+    exact ⟨s, h1⟩
+
+/-! ### the positive clause under collision-freedom of the tables IN FORCE only -/
+
+/-- the condition, spelled out (`Current`, `stepCurrent`, `currentOf` in `Spec/RoutingHistory.lean`) -/
+theorem collisionFreeNow_iff (T : Current) :
+    CollisionFreeNow T ↔
+      ((∀ e ∈ T.pat, ∀ e' ∈ T.pat, e.pid = e'.pid → isProgram e = isProgram e') ∧
+       (∀ x ∈ T.pmt, ∀ s ∈ streamsOf x.2, ∀ e ∈ T.pat, s.pid ≠ e.pid) ∧
+       (∀ x ∈ T.pmt, ∀ y ∈ T.pmt, ∀ s ∈ streamsOf x.2, ∀ s' ∈ streamsOf y.2, s.pid = s'.pid → x.1 = y.1)) :=
+  Iff.rfl
+
+/-- only the prefixes up to the length of the history matter, so the condition is decidable -/
+theorem collisionFreeNowAll_iff (evs : List Event) :
+    CollisionFreeNowAll evs ↔ ∀ k ≤ evs.length, CollisionFreeNow (currentOf (evs.take k)) :=
+  Ts.Lemmas.C05He.collisionFreeNowAll_iff evs
+
+/-- the global condition implies the per-prefix one (so every `CollisionFree` history is covered by
+the primed theorems) -/
+theorem collisionFreeNowAll_of_collisionFree (evs : List Event) (h : CollisionFree evs) :
+    CollisionFreeNowAll evs := Ts.Lemmas.C05He.collisionFreeNowAll_of_collisionFree evs h
+
+/-- the PMT in force on `p` after `pre ++ PMT(p, body) :: post`, when `post` applies no PMT on `p`
+and every PAT in `post` announces `p` as a program-map PID, is `body` -/
+theorem current_pmt_after (pre post : List Event) (p ver : Nat) (body : Bytes)
+    (hlast : ∀ ev ∈ post, ∀ v b, ev ≠ .pmtApplied p v b)
+    (hkeep : ∀ ev ∈ post, ∀ v es, ev = .patApplied v es → p ∈ progPids es) :
+    (p, body) ∈ (currentOf (pre ++ .pmtApplied p ver body :: post)).pmt :=
+  cur_after_pmt pre post p ver body (fun ev hm => ⟨hlast ev hm, hkeep ev hm⟩)
+
+/-- **The positive clause for the tables in force.**  `evs`: a well-formed history such that after
+EVERY prefix the tables in force are collision-free (`CollisionFreeNowAll`; superseded tables are not
+constrained).  If `body` is the PMT in force on the program-map PID `p` (the most recent PMT applied
+on `p` since `p` has continuously been announced by the PAT) then every PID `q` it lists is routed by
+the stream request of its (last) entry in `body`: naming `p`, the entry's stream type, `q`, the
+section's PCR PID and descriptors. -/
+theorem routed_by_current_pmt (evs : List Event) (hwf : WF initRoute evs) (hcf : CollisionFreeNowAll evs)
+    (p : Nat) (body : Bytes) (hm : (p, body) ∈ (currentOf evs).pmt) (q : Nat) (req : Req)
+    (hq : lastFor (pmtReqs p body) q = some req) :
+    (∃ tag, (run initRoute evs).slots q = some (req, tag)) ∧
+    routeOf (run initRoute evs) q = some (kindOf req) ∧
+    ∃ s ∈ streamsOf body, s.pid = q ∧
+      req = .stream p s.streamType q (specPcrPid body) s.descBytes (specProgramDescBytes body) := by
+  obtain ⟨tag, h⟩ := Ts.Lemmas.C05He.routed_by_current_pmt evs hwf hcf p body hm q req hq
+  refine ⟨⟨tag, h⟩, by unfold routeOf; rw [h]; rfl, ?_⟩
+  have := lastFor_mem _ _ _ hq
+  unfold pmtReqs pmtRequests at this
+  obtain ⟨s, hs, hee⟩ := List.mem_map.1 this
+  simp only [Prod.mk.injEq] at hee
+  obtain ⟨e1, e2⟩ := hee
+  exact ⟨s, hs, e1, by rw [← e2, ← e1]; rfl⟩
+
+/-- `routed_by_latest_pmt` with the global `CollisionFree` replaced by `CollisionFreeNowAll`.
+Extra hypotheses compared with `routed_by_latest_pmt`: the history is well-formed (`hwf`), and every
+PAT applied after the PMT still announces `p` as a program-map PID (`hkeep`: the program is not
+dropped and announced again in between — then its PMT would no longer be in force). -/
+theorem routed_by_latest_pmt' (pre post : List Event) (p ver : Nat) (body : Bytes) (q : Nat) (req : Req)
+    (hwf : WF initRoute (pre ++ .pmtApplied p ver body :: post))
+    (hcf : CollisionFreeNowAll (pre ++ .pmtApplied p ver body :: post))
+    (hlast : ∀ ev ∈ post, ∀ v b, ev ≠ .pmtApplied p v b)
+    (hkeep : ∀ ev ∈ post, ∀ v es, ev = .patApplied v es → p ∈ progPids es)
+    (hq : lastFor (pmtReqs p body) q = some req) :
+    (∃ tag, (run initRoute (pre ++ .pmtApplied p ver body :: post)).slots q = some (req, tag)) ∧
+    routeOf (run initRoute (pre ++ .pmtApplied p ver body :: post)) q = some (kindOf req) ∧
+    ∃ s ∈ streamsOf body, s.pid = q ∧
+      req = .stream p s.streamType q (specPcrPid body) s.descBytes (specProgramDescBytes body) :=
+  routed_by_current_pmt _ hwf hcf p body (current_pmt_after pre post p ver body hlast hkeep) q req hq
+
+/-- the old theorem as a corollary (for well-formed histories in which `p` stays announced) -/
+example (pre post : List Event) (p ver : Nat) (body : Bytes) (q : Nat) (req : Req)
+    (hwf : WF initRoute (pre ++ .pmtApplied p ver body :: post))
+    (hcf : CollisionFree (pre ++ .pmtApplied p ver body :: post))
+    (hlast : ∀ ev ∈ post, ∀ v b, ev ≠ .pmtApplied p v b)
+    (hkeep : ∀ ev ∈ post, ∀ v es, ev = .patApplied v es → p ∈ progPids es)
+    (hq : lastFor (pmtReqs p body) q = some req) :
+    ∃ tag, (run initRoute (pre ++ .pmtApplied p ver body :: post)).slots q = some (req, tag) :=
+  (routed_by_latest_pmt' pre post p ver body q req hwf (collisionFreeNowAll_of_collisionFree _ hcf)
+    hlast hkeep hq).1
+
+/-- **the first sentence of C05, end to end, for the tables in force.**  As `handled_by_latest_pmt`
+with `CollisionFree` replaced by `CollisionFreeNowAll` and the extra hypothesis `hkeep` (every PAT
+after the PMT still announces `p`). -/
+theorem handled_by_latest_pmt' (cfg : Cfg) (hscript : cfg.script = []) (pre post : List Event)
+    (p ver : Nat) (body : Bytes) (pks : List Pk) (q : Nat) (s : StreamInfo)
+    (hwf : WF initRoute (pre ++ .pmtApplied p ver body :: post))
+    (hcf : CollisionFreeNowAll (pre ++ .pmtApplied p ver body :: post))
+    (hre : Realises initRoute (pre ++ .pmtApplied p ver body :: post) pks)
+    (hlast : ∀ ev ∈ post, ∀ v b, ev ≠ .pmtApplied p v b)
+    (hkeep : ∀ ev ∈ post, ∀ v es, ev = .patApplied v es → p ∈ progPids es)
+    (hq : lastFor (pmtReqs p body) q
+      = some (.stream p s.streamType q (specPcrPid body) s.descBytes (specProgramDescBytes body))) :
+    ∃ t c tag, pushModel App.sem (App.init cfg) pks = .ok (t, c) ∧
+      Ev.construct (.stream p s.streamType q (specPcrPid body) s.descBytes (specProgramDescBytes body)) tag
+        ∈ c.trace ∧
+      (if isPes s.streamType then ∃ f, t.get q = some (.pes tag f) else t.get q = some (.recorder tag)) := by
+  obtain ⟨t, c, -, h2, hslots, htags, -, -, -⟩ := routing_refines cfg hscript _ pks hwf hre
+  obtain ⟨⟨tag, hs⟩, -, -⟩ := routed_by_latest_pmt' pre post p ver body q _ hwf hcf hlast hkeep hq
+  have hrel := hslots q
+  rw [hs] at hrel
+  exact ⟨t, c, tag, h2, (htags q _ tag hs).2.1, hrel⟩
+
+/-- **A history that is NOT `CollisionFree` but satisfies the new hypothesis.**  `movedHist`: PAT
+{1 → 0x100, 2 → 0x110}; PMT(0x100) v0 {0x101, 0x102}; PMT(0x100) v1 {0x101} (applied by the same
+instance, so 0x102 is removed); PMT(0x110) v0 {0x102}; a packet on 0x102 — PID 0x102 MOVES from
+program 1 to program 2.  It is realised by real packets (`movedBytes`). -/
+example : WF initRoute movedHist ∧ ¬ CollisionFree movedHist ∧ CollisionFreeNowAll movedHist ∧
+    Demux.frame movedBytes 0 = .ok movedPks ∧ Realises initRoute movedHist movedPks :=
+  ⟨moved_wf, moved_not_cf, moved_cfn, moved_frame, moved_realises⟩
+
+/-- `handled_by_latest_pmt'` on it: 0x102 is handled by a PES filter built from program 2's stream
+request … -/
+theorem moved_handled :
+    ∃ t c tag, runApp {} [movedBytes] = .ok (t, c) ∧
+      Ev.construct (.stream 0x110 0x0f 0x102 0x102 [] []) tag ∈ c.trace ∧
+      ∃ f, t.get 0x102 = some (.pes tag f) := by
+  obtain ⟨t, c, tag, h1, h2, h3⟩ := handled_by_latest_pmt' {} rfl
+    [.patApplied 0 pat2, .pmtApplied 0x100 0 body0, .pmtApplied 0x100 1 body1] [.esPacket 0x102]
+    0x110 0 bodyM movedPks 0x102 ⟨0x0f, 0x102, []⟩ moved_wf moved_cfn moved_realises
+    (by intro ev hm v b e; rw [List.mem_singleton] at hm; rw [hm] at e; cases e)
+    (by intro ev hm v es e; rw [List.mem_singleton] at hm; rw [hm] at e; cases e)
+    (by decide +kernel)
+  have e1 : specPcrPid bodyM = 0x102 := by decide +kernel
+  have e2 : specProgramDescBytes bodyM = [] := by decide +kernel
+  rw [e1, e2] at h2
+  rw [if_pos (by decide)] at h3
+  exact ⟨t, c, tag, by rw [runApp_one {} movedBytes movedPks moved_frame]; exact h1, h2, h3⟩
+
+/-- … and kernel evaluation of the whole model on the same bytes agrees: that tag is 6, and the
+callbacks for the probe packet carry tag 6 (no stale handler interferes) -/
+theorem moved_checked :
+    ∃ t c, runApp {} [movedBytes] = .ok (t, c) ∧ (∃ f, t.get 0x102 = some (.pes 6 f)) ∧
+      Ev.construct (.stream 0x110 0x0f 0x102 0x102 [] []) 6 ∈ c.trace ∧
+      (∀ tag, Ev.construct (.byPid 0x102) tag ∉ c.trace) ∧ esTags c = [(6, 0), (6, 1)] := by
+  obtain ⟨t, c, hr, hc, -, -, -, h102, -⟩ := observe_some _ _ moved_run
+  obtain ⟨t', c', hr', he⟩ := esTagsOf_some _ _ moved_es
+  rw [hr] at hr'
+  simp only [R.ok.injEq, Prod.mk.injEq] at hr'
+  obtain ⟨-, rfl⟩ := hr'
+  refine ⟨t, c, hr, slot_pes _ _ h102, ?_, ?_, he⟩
+  · rw [← mem_constructs, hc]; decide
+  · intro tag hm
+    rw [← mem_constructs, hc] at hm
+    simp at hm
+
+/-! ### the "dropped PIDs" clause as a statement about TAGS -/
+
+/-- PMT, with tags: a PID listed by one PMT version on `p` and dropped by the next version applied on
+`p` is afterwards routed to NO handler instance — in particular not to the one (tag `tag`) the older
+version installed — PROVIDED no PAT version listing `p` was applied in between. -/
+theorem dropped_by_same_pmt_instance' (r : Route) (mid : List Event) (p v1 v2 : Nat) (b1 b2 : Bytes)
+    (q tag : Nat)
+    (hmid : ∀ ev ∈ mid, (∀ v b, ev ≠ .pmtApplied p v b) ∧
+      ∀ v es, ev = .patApplied v es → p ∉ es.map PatEntry.pid)
+    (hq : q ∈ (streamsOf b1).map StreamInfo.pid) (h13 : q ≤ 0x1fff)
+    (hdrop : q ∉ (streamsOf b2).map StreamInfo.pid) :
+    tagOf (run r (.pmtApplied p v1 b1 :: mid ++ [.pmtApplied p v2 b2])) q = none ∧
+    tagOf (run r (.pmtApplied p v1 b1 :: mid ++ [.pmtApplied p v2 b2])) q ≠ some tag := by
+  have h := dropped_by_same_pmt_instance r mid p v1 v2 b1 b2 q hmid hq h13 hdrop
+  have h' := ((routeOf_iff _ q).1).1 h
+  unfold tagOf
+  rw [h']
+  exact ⟨rfl, fun e => by cases e⟩
+
+/-- **`DroppedClausePmt'` with the exact extra hypothesis** "no PAT version listing `p` was applied
+between the two PMT versions" (needs neither `WF` nor `CollisionFree`; `q` a 13-bit PID) -/
+theorem dropped_clause_pmt'_partial (pre mid : List Event) (p v1 v2 : Nat) (b1 b2 : Bytes) (q tag : Nat)
+    (hmid : ∀ ev ∈ mid, ∀ v b, ev ≠ .pmtApplied p v b)
+    (hpat : ∀ ev ∈ mid, ∀ v es, ev = .patApplied v es → p ∉ es.map PatEntry.pid)
+    (hq : q ∈ (streamsOf b1).map StreamInfo.pid) (h13 : q ≤ 0x1fff)
+    (hdrop : q ∉ (streamsOf b2).map StreamInfo.pid) :
+    tagOf (run initRoute (pre ++ (.pmtApplied p v1 b1 :: mid ++ [.pmtApplied p v2 b2]))) q ≠ some tag := by
+  rw [run_append]
+  exact (dropped_by_same_pmt_instance' _ mid p v1 v2 b1 b2 q tag
+    (fun ev hm => ⟨hmid ev hm, hpat ev hm⟩) hq h13 hdrop).2
+
+/-- **known finding F7 against the faithful clause: `DroppedClausePmt'` is FALSE.**  Witness as in
+`dropped_clause_pmt_false`: right after PMT v0, 0x102 is routed to the instance with tag 3; after
+PAT v1 and PMT v1 (which drops 0x102) it is STILL routed to the instance with tag 3. -/
+theorem dropped_clause_pmt'_false : ¬ DroppedClausePmt' := by
+  intro h
+  have := h [.patApplied 0 [.program 1 0x100]] [.patApplied 1 [.program 1 0x100, .program 2 0x110]]
+    0x100 0 1 body0 body1 0x102 3 (by decide +kernel) (by decide +kernel)
+    (by intro ev hm v b e; rw [List.mem_singleton] at hm; rw [hm] at e; cases e)
+    (by decide +kernel) (by decide +kernel) (by decide +kernel)
+  revert this
+  decide +kernel
+
+/-- … and in the model (kernel evaluation of the whole model on the F7 bytes with a unit-start probe
+packet): the handler PMT v0 installed for 0x102 (`construct` with tag 3) still sits in slot 0x102
+after PMT v1 dropped 0x102, and the probe packet produces `start_stream` / `begin_packet` callbacks
+carrying tag 3.  (`f7_refined` derives the slot content from `routing_refines`.) -/
+theorem dropped_clause_model_witness :
+    ∃ t c, runApp {} [f7aBytes] = .ok (t, c) ∧ (∃ f, t.get 0x102 = some (.pes 3 f)) ∧
+      Ev.construct (.stream 0x100 0x0f 0x102 0x101 [] []) 3 ∈ c.trace ∧
+      (∃ s, t.get 0x100 = some (.pmt 0x100 1 s [0x101])) ∧ esTags c = [(3, 0), (3, 1)] := by
+  obtain ⟨t, c, hr, hc, -, h100, -, h102, -⟩ := observe_some _ _ f7a_run
+  obtain ⟨t', c', hr', he⟩ := esTagsOf_some _ _ f7a_es
+  rw [hr] at hr'
+  simp only [R.ok.injEq, Prod.mk.injEq] at hr'
+  obtain ⟨-, rfl⟩ := hr'
+  refine ⟨t, c, hr, slot_pes _ _ h102, ?_, slot_pmt _ _ _ _ h100, he⟩
+  rw [← mem_constructs, hc]; decide
+
+/-- the dropped clause end to end, under the same-instance hypothesis: after a realised well-formed
+history `pre ++ PMT(p) v1 :: mid ++ [PMT(p) v2]` with no PMT on `p` and no PAT listing `p` in `mid`,
+the slot of a PID listed by v1 and not by v2 is EMPTY in the dispatcher's table -/
+theorem dropped_by_same_pmt_instance_handled (cfg : Cfg) (hscript : cfg.script = [])
+    (pre mid : List Event) (p v1 v2 : Nat) (b1 b2 : Bytes) (q : Nat) (pks : List Pk)
+    (hwf : WF initRoute (pre ++ (.pmtApplied p v1 b1 :: mid ++ [.pmtApplied p v2 b2])))
+    (hre : Realises initRoute (pre ++ (.pmtApplied p v1 b1 :: mid ++ [.pmtApplied p v2 b2])) pks)
+    (hmid : ∀ ev ∈ mid, (∀ v b, ev ≠ .pmtApplied p v b) ∧
+      ∀ v es, ev = .patApplied v es → p ∉ es.map PatEntry.pid)
+    (hq : q ∈ (streamsOf b1).map StreamInfo.pid) (h13 : q ≤ 0x1fff)
+    (hdrop : q ∉ (streamsOf b2).map StreamInfo.pid) :
+    ∃ t c, pushModel App.sem (App.init cfg) pks = .ok (t, c) ∧ t.get q = none := by
+  obtain ⟨t, c, -, h2, hslots, -, -, -, -⟩ := routing_refines cfg hscript _ pks hwf hre
+  have h := dropped_by_same_pmt_instance (run initRoute pre) mid p v1 v2 b1 b2 q hmid hq h13 hdrop
+  rw [← run_append] at h
+  have h' := ((routeOf_iff _ q).1).1 h
+  have hrel := hslots q
+  rw [h'] at hrel
+  exact ⟨t, c, h2, hrel⟩
+
+/-! ### observable conclusion: the callbacks of the next packet carry the handler's tag -/
+
+/-- a packet on a PID whose slot holds the PES filter with tag `tag` (the conclusion of
+`handled_by_latest_pmt` / `handled_by_latest_pmt'` for an `is_pes` stream type): for ANY unflagged
+188-byte packet `pk` on that PID the dispatcher step succeeds, keeps a PES filter with the SAME tag
+in the slot and changes no other slot, makes no request (`nextTag` unchanged, no `construct` event),
+and every event it appends to the trace is an elementary-stream callback carrying `tag`
+(`Ts.Lemmas.Proj.tagOf e = some tag`). -/
+theorem next_packet_callbacks_tagged (t : Tab Handler) (c : Ctx) (pk : Pk) (tag : Nat) (f : PesFilter.F)
+    (hg : t.get pk.pid = some (.pes tag f)) (hf : pk.flagged = false) (hl : pk.bytes.length = 188) :
+    ∃ f' c' out, specStep App.sem (t, c) pk = .ok (t.insert pk.pid (.pes tag f'), c') ∧
+      c'.trace = out ++ c.trace ∧ c'.nextTag = c.nextTag ∧ c'.cfg = c.cfg ∧
+      ∀ e ∈ out, Ts.Lemmas.Proj.tagOf e = some tag ∧ ∀ req σ, e ≠ .construct req σ := by
+  obtain ⟨h', c', chg, h1, -, -⟩ := Ts.Lemmas.C01.consume_total (.pes tag f) c pk trivial hl
+  obtain ⟨out, f', e1, e2, h2, h3, h4, h5⟩ := Ts.Lemmas.C19.pes_consume_events tag f c pk h' c' chg hl h1
+  subst e1 e2
+  refine ⟨f', c', out, ?_, h2, h4, h5, ?_⟩
+  · rw [next_packet_handled t c pk _ hg hf, h1]; rfl
+  · intro e he
+    have := h3 e he
+    cases e <;> first
+      | exact this.elim
+      | exact ⟨by simp only [Ts.Lemmas.Proj.tagOf]; rw [this], fun _ _ h => by cases h⟩
+      | exact ⟨by simp only [Ts.Lemmas.Proj.tagOf]; rw [this.1], fun _ _ h => by cases h⟩
+
+/-- **the first sentence of C05 in terms of callbacks.**  Hypotheses of `handled_by_latest_pmt'` plus
+`is_pes` of the entry's stream type.  Then for ANY unflagged 188-byte packet `pk` on `q` following
+the packets of the history: the real loops on `pks ++ [pk]` succeed, make no further request, and
+every event appended for `pk` is an elementary-stream callback carrying the tag `tag` under which the
+application answered the stream request naming `p`, the stream type and `q`. -/
+theorem latest_pmt_stream_callbacks_tagged (cfg : Cfg) (hscript : cfg.script = []) (pre post : List Event)
+    (p ver : Nat) (body : Bytes) (pks : List Pk) (q : Nat) (s : StreamInfo)
+    (hwf : WF initRoute (pre ++ .pmtApplied p ver body :: post))
+    (hcf : CollisionFreeNowAll (pre ++ .pmtApplied p ver body :: post))
+    (hre : Realises initRoute (pre ++ .pmtApplied p ver body :: post) pks)
+    (hlast : ∀ ev ∈ post, ∀ v b, ev ≠ .pmtApplied p v b)
+    (hkeep : ∀ ev ∈ post, ∀ v es, ev = .patApplied v es → p ∈ progPids es)
+    (hq : lastFor (pmtReqs p body) q
+      = some (.stream p s.streamType q (specPcrPid body) s.descBytes (specProgramDescBytes body)))
+    (hpes : isPes s.streamType = true)
+    (pk : Pk) (hpid : pk.pid = q) (hf : pk.flagged = false) (hl : pk.bytes.length = 188) :
+    ∃ t c tag t' c' out, pushModel App.sem (App.init cfg) pks = .ok (t, c) ∧
+      Ev.construct (.stream p s.streamType q (specPcrPid body) s.descBytes (specProgramDescBytes body)) tag
+        ∈ c.trace ∧
+      pushModel App.sem (App.init cfg) (pks ++ [pk]) = .ok (t', c') ∧
+      c'.trace = out ++ c.trace ∧ c'.nextTag = c.nextTag ∧
+      (∀ e ∈ out, Ts.Lemmas.Proj.tagOf e = some tag ∧ ∀ req σ, e ≠ .construct req σ) ∧
+      (∃ f', t'.get q = some (.pes tag f')) := by
+  obtain ⟨t, c, tag, h1, h2, h3⟩ := handled_by_latest_pmt' cfg hscript pre post p ver body pks q s
+    hwf hcf hre hlast hkeep hq
+  rw [if_pos hpes] at h3
+  obtain ⟨f, hg⟩ := h3
+  obtain ⟨f', c', out, hstep, e1, e2, -, e4⟩ :=
+    next_packet_callbacks_tagged t c pk tag f (by rw [hpid]; exact hg) hf hl
+  refine ⟨t, c, tag, t.insert pk.pid (.pes tag f'), c', out, h1, h2, ?_, e1, e2, e4, f', ?_⟩
+  · rw [Ts.Props.C06.push_refines_spec] at h1 ⊢
+    rw [pushSpec_append_aux, h1]
+    simp only [R.ok_bind, pushSpec_cons, hstep, pushSpec_nil]
+  · rw [hpid]; exact Tab.get_insert_self _ _ _
+
+/-- non-vacuity of `next_packet_callbacks_tagged` / `latest_pmt_stream_callbacks_tagged`: the
+`movedHist` history up to PMT(0x110) and the probe packet `probeA` on 0x102 -/
+example : ∃ t c tag t' c' out,
+    pushModel App.sem (App.init {}) (movedPks.take 4) = .ok (t, c) ∧
+    Ev.construct (.stream 0x110 0x0f 0x102 (specPcrPid bodyM) [] (specProgramDescBytes bodyM)) tag ∈ c.trace ∧
+    pushModel App.sem (App.init {}) (movedPks.take 4 ++ [⟨probeA, 752, 0x102, false, false⟩]) = .ok (t', c') ∧
+    c'.trace = out ++ c.trace ∧ c'.nextTag = c.nextTag ∧
+    (∀ e ∈ out, Ts.Lemmas.Proj.tagOf e = some tag ∧ ∀ req σ, e ≠ .construct req σ) ∧
+    (∃ f', t'.get 0x102 = some (.pes tag f')) :=
+  latest_pmt_stream_callbacks_tagged {} rfl
+    [.patApplied 0 pat2, .pmtApplied 0x100 0 body0, .pmtApplied 0x100 1 body1] []
+    0x110 0 bodyM (movedPks.take 4) 0x102 ⟨0x0f, 0x102, []⟩ (by decide +kernel) (by decide +kernel)
+    (Realises.cons (re_pat2 _ 0) (Realises.cons (re_pmt0 _ 188) (Realises.cons (re_pmt1 _ 376)
+      (Realises.cons (re_pmt2_M _ 564) (Realises.nil _)))))
+    (by intro ev hm; cases hm) (by intro ev hm; cases hm) (by decide +kernel) (by decide)
+    ⟨probeA, 752, 0x102, false, false⟩ rfl rfl (by show probeA.length = 188; decide +kernel)
+
+/-! ### instantiations (non-vacuity) of `removal_partial`, `handled_by_latest_pmt`, `dropped_by_next_pat` -/
+
+/-- `Ts.Props.C05.removal_partial` on real bytes: the PMT filter on 0x100 that remembers PMT v0's PIDs
+{0x101, 0x102} consumes the packet carrying PMT v1 (`pmtV1`): it queues `remove 0x102` and ends up
+remembering {0x101} -/
+example : ∃ s' c' chg,
+    App.consume (.pmt 0x100 1 {} ((streamsOf body0).map StreamInfo.pid)) { cfg := {} }
+        ⟨pmtV1, 376, 0x100, false, false⟩ = .ok (.pmt 0x100 1 s' [0x101], c', chg) ∧
+      Change.remove 0x102 ∈ chg ∧ ∀ t : Tab Handler, (applyChanges t chg).get 0x102 = none := by
+  have h : (match Psi.consume Psi.table {} pmtV1 with
+      | .ok (_, [d]) =>
+        (match Psi.crcPass false d.bytes with | .ok true => true | _ => false) &&
+          byteD d.bytes 0 == 2 && decide (sectionBody d.bytes = body1)
+      | _ => false) = true := by decide +kernel
+  split at h
+  · rename_i s' d heq
+    simp only [Bool.and_eq_true, beq_iff_eq, decide_eq_true_eq] at h
+    obtain ⟨⟨h1, h2⟩, h3⟩ := h
+    split at h1
+    · rename_i hc
+      have := Ts.Props.C05.removal_partial 0x100 1 {} body0 { cfg := {} } ⟨pmtV1, 376, 0x100, false, false⟩
+        s' d 0x102 heq hc (by rw [h3]; decide +kernel) h2 (by decide +kernel)
+        (by rw [h3]; decide +kernel)
+      obtain ⟨c', chg, a1, -, a3, a4⟩ := this
+      rw [h3, streams_body1] at a1
+      exact ⟨s', c', chg, a1, a3, fun t => (a4 t).1⟩
+    · cases h1
+  · cases h
+
+/-- `handled_by_latest_pmt` on the control history (real packets `ctlPks`): 0x101, listed by the most
+recent PMT (v1) of 0x100, holds a PES filter whose tag is that of a `construct` event with the stream
+request of PMT v1 -/
+example : ∃ t c tag, pushModel App.sem (App.init {}) ctlPks = .ok (t, c) ∧
+    Ev.construct (.stream 0x100 0x1b 0x101 (specPcrPid body1) [] (specProgramDescBytes body1)) tag ∈ c.trace ∧
+    ∃ f, t.get 0x101 = some (.pes tag f) := by
+  obtain ⟨t, c, tag, h1, h2, h3⟩ := handled_by_latest_pmt {} rfl
+    [.patApplied 0 [.program 1 0x100], .pmtApplied 0x100 0 body0] [.esPacket 0x102]
+    0x100 1 body1 ctlPks 0x101 ⟨0x1b, 0x101, []⟩ ctl_wf ctl_cf ctl_realises
+    (by intro ev hm v b e; rw [List.mem_singleton] at hm; rw [hm] at e; cases e)
+    (by decide +kernel)
+  rw [if_pos (by decide)] at h3
+  exact ⟨t, c, tag, h1, h2, h3⟩
+
+/-- `dropped_by_next_pat` on `dropHist`: the program-map PID 0x100, listed by PAT v0 and not by PAT v1
+(a PMT applied in between), is un-routed -/
+example : routeOf (run initRoute dropHist) 0x100 = none :=
+  dropped_by_next_pat initRoute [.pmtApplied 0x100 0 body0] 0 1 [.program 1 0x100] [] 0x100
+    (by intro ev hm v es e; rw [List.mem_singleton] at hm; rw [hm] at e; cases e)
+    (by decide) (by decide) (by decide)
+
+/-! ### interleaved realisation: elementary-stream packets between the packets of one table -/
+
+/-- `Realises` is the special case of `RealisesI` without interleaved packets -/
+theorem realisesI_of_realises {r : Route} {evs : List Event} {pks : List Pk} (h : Realises r evs pks) :
+    RealisesI r evs pks := Ts.Lemmas.C05He.realisesI_of_realises h
+
+/-- the induction, from any agreeing start, for interleaved realisations -/
+theorem routing_refines_interleaved_from (r : Route) (t : Tab Handler) (c : Ctx) (evs : List Event)
+    (pks : List Pk) (hsim : Sim r t c) (hwf : WF r evs) (hre : RealisesI r evs pks) :
+    ∃ t' c', pushSpec App.sem (t, c) pks = .ok (t', c') ∧ pushModel App.sem (t, c) pks = .ok (t', c') ∧
+      Sim (run r evs) t' c' := by
+  obtain ⟨t', c', h1, h2⟩ := sim_run_I hre t c hsim hwf
+  exact ⟨t', c', h1, by rw [Ts.Props.C06.push_refines_spec]; exact h1, h2⟩
+
+/-- **C05 over whole histories, with interleaving.**  As `routing_refines`, but `pks` realises the
+history in the sense of `RealisesI`: between (before, after) the packets of ONE PAT / PMT transmission
+there may be any number of unflagged 188-byte packets on PIDs that, in the state the table event
+happens in, are routed to a PES filter and are not named by the event (neither listed by the new
+version nor installed by the superseded one) — `Foreign`.  Same conclusion as `routing_refines`.
+NOT covered: packets of OTHER tables, of recorders or of unknown PIDs inside a multi-packet table
+(they must sit between events), and packets on PIDs the table itself names. -/
+theorem routing_refines_interleaved (cfg : Cfg) (hscript : cfg.script = []) (evs : List Event)
+    (pks : List Pk) (hwf : WF initRoute evs) (hre : RealisesI initRoute evs pks) :
+    ∃ t c, pushSpec App.sem (App.init cfg) pks = .ok (t, c)
+      ∧ pushModel App.sem (App.init cfg) pks = .ok (t, c)
+      ∧ (∀ pid, SlotRel (run initRoute evs) pid ((run initRoute evs).slots pid) (t.get pid))
+      ∧ (∀ pid req tag, (run initRoute evs).slots pid = some (req, tag) →
+            reqPid req = pid ∧ Ev.construct req tag ∈ c.trace ∧ tag < c.nextTag)
+      ∧ (∀ pid pid' req req' tag, (run initRoute evs).slots pid = some (req, tag) →
+            (run initRoute evs).slots pid' = some (req', tag) → pid = pid')
+      ∧ constructs c = (Req.byPid 0 :: historyRequests initRoute evs).zipIdx
+      ∧ c.nextTag = 1 + (historyRequests initRoute evs).length := by
+  obtain ⟨t, c, h1, h2, hsim⟩ :=
+    routing_refines_interleaved_from initRoute _ _ evs pks (sim_init cfg hscript) hwf hre
+  have hinv := tagInv_run evs initRoute tagInv_init
+  have hreqs : (run initRoute evs).reqs = Req.byPid 0 :: historyRequests initRoute evs := by
+    rw [run_reqs]; rfl
+  refine ⟨t, c, h1, h2, hsim.slots, ?_, ?_, ?_, ?_⟩
+  · intro pid req tag hs
+    obtain ⟨a1, a2⟩ := hinv pid req tag hs
+    refine ⟨a1, ?_, ?_⟩
+    · rw [← mem_constructs, hsim.log, List.mem_zipIdx_iff_getElem?]; exact a2
+    · rw [hsim.tag]
+      apply Classical.byContradiction
+      intro hn
+      rw [List.getElem?_eq_none (by omega)] at a2
+      cases a2
+  · intro pid pid' req req' tag ha hb
+    exact tags_distinct _ hinv pid pid' req req' tag ha hb
+  · rw [hsim.log, hreqs]
+  · rw [hsim.tag, hreqs, List.length_cons]; omega
+
+/-! #### non-vacuity: a TWO-packet PMT with an elementary-stream packet in between -/
+
+/-- 184 bytes of elementary-stream descriptors (two user-private descriptors of 90 bytes) -/
+def descL : Bytes := [0x80, 0x5a] ++ List.replicate 90 0x00 ++ ([0x80, 0x5a] ++ List.replicate 90 0x00)
+
+/-- PMT body of program 2: PCR PID 0x111, 0x1b on 0x111 with 184 descriptor bytes -/
+def bodyL : Bytes := [0xe1, 0x11, 0xf0, 0x00, 0x1b, 0xe1, 0x11, 0xf0, 0xb8] ++ descL
+
+/-- the section: 205 bytes, so it needs two transport packets -/
+def pmtLS : Bytes := [0x02, 0xb0, 0xca, 0x00, 0x02, 0xc1, 0x00, 0x00] ++ bodyL ++ [0x1c, 0x78, 0x1d, 0xd5]
+
+/-- first packet on 0x110: unit start, `pointer_field = 0`, the first 183 bytes of the section -/
+def pmtLA : Bytes := [0x47, 0x41, 0x10, 0x10, 0x00] ++ pmtLS.take 183
+
+/-- second packet on 0x110: continuation, the remaining 22 bytes, stuffing -/
+def pmtLB : Bytes := [0x47, 0x01, 0x10, 0x11] ++ pmtLS.drop 183 ++ List.replicate 162 0xff
+
+/-- a unit-start packet on 0x101 (start of a PES packet, stream id 0xe0) -/
+def probeB : Bytes :=
+  [0x47, 0x41, 0x01, 0x10, 0x00, 0x00, 0x01, 0xe0, 0x00, 0x00, 0x80, 0x00, 0x00] ++ List.replicate 175 0x55
+
+/-- PAT {1 → 0x100, 2 → 0x110}; PMT(0x100) {0x101, 0x102}; first packet of PMT(0x110); a packet on
+0x101 (program 1's video); second packet of PMT(0x110) -/
+def interBytes : Bytes := pat2V0 ++ pmtV0 ++ pmtLA ++ probeB ++ pmtLB
+
+def interHist : List Event :=
+  [.patApplied 0 pat2, .pmtApplied 0x100 0 body0, .pmtApplied 0x110 0 bodyL]
+
+def interPks : List Pk :=
+  [⟨pat2V0, 0, 0, false, false⟩, ⟨pmtV0, 188, 0x100, false, false⟩, ⟨pmtLA, 376, 0x110, false, false⟩,
+   ⟨probeB, 564, 0x101, false, false⟩, ⟨pmtLB, 752, 0x110, false, false⟩]
+
+theorem inter_frame : Demux.frame interBytes 0 = .ok interPks := by decide +kernel
+theorem inter_wf : WF initRoute interHist := by decide +kernel
+
+/-- the two packets on 0x110 are one intact transmission of `pmtLS` -/
+theorem tx_pmtL : Transmits 0x110 pmtLS
+    [⟨pmtLA, 376, 0x110, false, false⟩, ⟨pmtLB, 752, 0x110, false, false⟩] :=
+  { wf := by decide +kernel, len := by decide +kernel, crc := by decide +kernel
+    pkts := by
+      intro pk hm
+      simp only [List.mem_cons, List.mem_nil_iff, or_false] at hm
+      rcases hm with rfl | rfl
+      · exact ⟨rfl, rfl, by show pmtLA.length = 188; decide +kernel⟩
+      · exact ⟨rfl, rfl, by show pmtLB.length = 188; decide +kernel⟩
+    mux := ⟨⟨[], 183, [], [pmtLS.drop 183 ++ List.replicate 162 0xff], []⟩, 4,
+      [⟨false, pmtLS.drop 183 ++ List.replicate 162 0xff, 4⟩],
+      by decide +kernel,
+      by
+        show [pmtLA, pmtLB].filterMap Ts.Lemmas.C03.plOf = _
+        decide +kernel,
+      by decide, rfl⟩ }
+
+theorem inter_realises : RealisesI initRoute interHist interPks := by
+  refine RealisesI.cons (pks1 := [⟨pat2V0, 0, 0, false, false⟩])
+    ⟨_, re_pat2 _ 0, Interleaves.own _ Interleaves.nil⟩
+    (RealisesI.cons (pks1 := [⟨pmtV0, 188, 0x100, false, false⟩])
+      ⟨_, re_pmt0 _ 188, Interleaves.own _ Interleaves.nil⟩
+      (RealisesI.cons (pks1 := [⟨pmtLA, 376, 0x110, false, false⟩, ⟨probeB, 564, 0x101, false, false⟩,
+          ⟨pmtLB, 752, 0x110, false, false⟩]) (pks2 := [])
+        ⟨[⟨pmtLA, 376, 0x110, false, false⟩, ⟨pmtLB, 752, 0x110, false, false⟩], ?_, ?_⟩
+        (RealisesI.nil _)))
+  · exact ⟨pmtLS, tx_pmtL, by decide +kernel, by decide +kernel, by decide +kernel, by decide +kernel⟩
+  · refine Interleaves.own _ (Interleaves.foreign _ ?_ (Interleaves.own _ Interleaves.nil))
+    refine ⟨rfl, by show probeB.length = 188; decide +kernel, ?_, ?_⟩
+    · exact ⟨0x100, 0x1b, 0x101, 0x101, [], [], 3, by decide +kernel, by decide⟩
+    · show _ ∉ _ ∧ _ ∉ _
+      decide +kernel
+
+/-- `routing_refines_interleaved` on it: the PMT of program 2 is applied although a packet of
+program 1 sat between its two packets; 0x101 still holds the PES filter with tag 3 … -/
+theorem inter_refined :
+    ∃ t c, runApp {} [interBytes] = .ok (t, c) ∧ (∃ f, t.get 0x101 = some (.pes 3 f)) ∧
+      (∃ f, t.get 0x111 = some (.pes 5 f)) ∧
+      (∃ s, t.get 0x110 = some (.pmt 0x110 2 s [0x111])) ∧
+      Ev.construct (.stream 0x110 0x1b 0x111 0x111 descL []) 5 ∈ c.trace := by
+  obtain ⟨t, c, -, h2, hslots, htags, -, -, -⟩ :=
+    routing_refines_interleaved {} rfl interHist interPks inter_wf inter_realises
+  have s101 : (run initRoute interHist).slots 0x101 = some (.stream 0x100 0x1b 0x101 0x101 [] [], 3) := by
+    decide +kernel
+  have s111 : (run initRoute interHist).slots 0x111 = some (.stream 0x110 0x1b 0x111 0x111 descL [], 5) := by
+    decide +kernel
+  have s110 : (run initRoute interHist).slots 0x110 = some (.pmt 0x110 2, 2) := by decide +kernel
+  have m110 : ((run initRoute interHist).pmt 0x110).streams.map StreamInfo.pid = [0x111] := by decide +kernel
+  refine ⟨t, c, by rw [runApp_one {} interBytes interPks inter_frame]; exact h2, ?_, ?_, ?_, ?_⟩
+  · have := hslots 0x101; rw [s101] at this; exact this
+  · have := hslots 0x111; rw [s111] at this; exact this
+  · have := hslots 0x110; rw [s110] at this
+    obtain ⟨s, h1, -⟩ := this
+    rw [m110] at h1
+    exact ⟨s, h1⟩
+  · exact (htags 0x111 _ 5 s111).2.1
+
+/-- … and kernel evaluation of the whole model on the same bytes agrees; the interleaved packet
+produced `start_stream` / `begin_packet` with tag 3 -/
+theorem inter_checked :
+    (match runApp {} [interBytes] with
+      | .ok (t, c) => slotOf (t.get 0x101) == .pes 3 && slotOf (t.get 0x110) == .pmt 0x110 2 [0x111] &&
+          decide (esTags c = [(3, 0), (3, 1)]) && decide ((constructs c).length = 6)
+      | .panic _ => false) = true := by decide +kernel
 
 end Ts.Props.C05History
